@@ -172,7 +172,9 @@ class ProgGen(object):
 
     def __init__(self, rng, max_depth=4, max_nodes=40, value_depth=2, msg_styles=None, act_styles=None,
                  exc_pool=None, allow_remote=True, allow_tb=True, allow_typed=True, type_names=None,
-                 allow_cross=True, fail_p=0.3, remote_vias=("same", "thread"), allow_reenter=False, hostile=None, defer_p=0.0, early_finish_p=0.0, extra_styles=()):
+                 allow_cross=True, fail_p=0.3, remote_vias=("same", "thread"), allow_reenter=False, hostile=None, defer_p=0.0, early_finish_p=0.0, extra_styles=(), reseed_p=0.0, reserved_field_p=0.0):
+        self.reseed_p = reseed_p  # share of body slots that re-seed the global random module with a fixed seed (programs do that)
+        self.reserved_field_p = reserved_field_p  # share of untyped field sets that also carry a key named like eliot's own metadata
         self.allow_reenter = allow_reenter
         self.early_finish_p = early_finish_p  # share of with-style actions that call finish() themselves at the end of the block
         self.extra_styles = tuple(extra_styles)  # e.g. "pre_created", "ctx_finish_inside"
@@ -209,6 +211,9 @@ class ProgGen(object):
                 out[k] = self.hostile(rng)
             else:
                 out[k] = gen_value(rng, self.value_depth)
+        if not ident_only and not typed and rng.random() < self.reserved_field_p:
+            # a program may pass keyword fields named like eliot's own metadata; eliot's values must win
+            out[rng.choice(["timestamp", "task_level", "task_uuid"])] = rng.choice(["x", 3, [7, 7], "11111111-2222-3333-4444-555555555555", None])
         return out
 
     def typed_decl(self, fields):
@@ -313,6 +318,8 @@ class ProgGen(object):
                 break
             self.budget -= 1
             r = rng.random()
+            if self.reseed_p and rng.random() < self.reseed_p:
+                out.append({"k": "reseed", "nid": self._nid(), "seed": rng.choice([0, 1, 4242])})
             if depth >= self.max_depth or r < 0.35:
                 out.append(self.msg())
             elif r < 0.42 and self.allow_tb:
@@ -339,6 +346,8 @@ def prog_stats(prog):
                 st["styles"].add("m:" + n["style"])
             elif n["k"] == "tb":
                 st["tb"] += 1
+            elif n["k"] == "reseed":
+                pass
             elif n["k"] == "spawn":
                 st["styles"].add("spawn:" + n["mode"])
                 for th in n["threads"]:
@@ -368,6 +377,8 @@ def prog_shape(prog):
                 out.append(("m", n["style"], len(n["fields"])))
             elif n["k"] == "tb":
                 out.append(("tb", n["exc"]))
+            elif n["k"] == "reseed":
+                out.append(("reseed",))
             elif n["k"] == "spawn":
                 out.append(("spawn", n["mode"], [walk(th) for th in n["threads"]]))
             else:
